@@ -96,16 +96,18 @@ def classify_helper(f):
     # Ok(ExecutorBuilder::<Ready>::new(contract, funds, to_json_binary(&msg)?))
     if inner["k"] == "call" and A.last_seg(inner["func"]) == "Ok" and len(inner["args"]) == 1:
         b = A.strip_expr(inner["args"][0])
+        b = A.resolve(b, env)
         if b["k"] == "call" and A.path_ids(b["func"])[-2:] == ["ExecutorBuilder", "new"] and len(b["args"]) == 3:
             seg = b["func"]["path"]["segs"][-2]
             state = A.garg_str(seg["args"][0]).split("::")[-1] if isinstance(seg["args"], list) and seg["args"] else None
-            a2 = A.strip_expr(b["args"][2])
+            a2 = A.resolve(b["args"][2], env)
             enc_ok = False
             if a2["k"] == "try":
                 c = A.strip_expr(a2["expr"])
                 if c["k"] == "call" and A.last_seg(c["func"]) == "to_json_binary" and len(c["args"]) == 1 and is_msg(c["args"][0]):
                     enc_ok = True
-            nf["op"] = {"kind": "executor_builder", "state": state, "contract": self_call(b["args"][0], "contract"), "funds": self_call(b["args"][1], "funds"), "encodes_msg": enc_ok}
+            nf["op"] = {"kind": "executor_builder", "state": state, "contract": self_call(A.resolve(b["args"][0], env), "contract"),
+                        "funds": self_call(A.resolve(b["args"][1], env), "funds"), "encodes_msg": enc_ok}
             return nf
     if inner["k"] == "mcall" and inner["method"] == "query_wasm_smart" and len(inner["args"]) == 2:
         r = A.strip_expr(inner["recv"])
